@@ -83,6 +83,16 @@ Fixpoint sane_ty (t : ty) : bool :=
   | _ => true
   end.
 
+(* no Float with a declared minimum or maximum anywhere in the type: the types whose
+   soundness does not depend on what float() answers for "nan" *)
+Fixpoint no_bounded_float (t : ty) : bool :=
+  match t with
+  | TFloat _ mn mx => match mn, mx with None, None => true | _, _ => false end
+  | TPair _ _ _ ta tb => no_bounded_float ta && no_bounded_float tb
+  | TList _ _ sub => no_bounded_float sub
+  | _ => true
+  end.
+
 Definition no_nan (o : oracles) : Prop := forall s, o_float o s <> FOk FNan.
 
 (* ------------------------------------------------------------------ per-key entries *)
